@@ -399,6 +399,12 @@ func TestTypeGraphs(t *testing.T) {
 		}
 		pg := gc.Print(nil)
 		sp := lib.Spec{Schema: pg.Schema, KeysOptional: gc.G.KeysOptional, SelfName: selfRoot}
+		if selfRoot == "" && rapid.IntRange(0, 2).Draw(t, "typesKnowTypes") == 0 {
+			// every type object is also given all the other types (the way an API description wires
+			// them): the recursion walk can then follow references from inside a type
+			sp.TypesKnowTypes = true
+			run.Label("types-know-each-other")
+		}
 		for _, ty := range pg.Types {
 			if ty.Name != selfRoot {
 				sp.Types = append(sp.Types, lib.Named{Name: ty.Name, Text: ty.Text, KeysOptional: gc.G.OptTypes[ty.Name]})
